@@ -365,7 +365,10 @@ def discharge(ob: Obligation, timeout_ms: int = 10000, use_cli: bool = True) -> 
         if ob.expect == 'valid' and ob.rehyp is not None and ob.len_vars:
             # prefer a small counter-model in which the universal facts hold on *every* row: bound the lengths and
             # instantiate the schemas at all concrete indices below the bound
+            t_small = time.time()
             for bound in (1, 2, 3, 4, 6):
+                if time.time() - t_small > 4.0:
+                    break          # building the re-instantiated hypotheses is itself costly for big path conditions
                 s2 = z3.Solver()
                 s2.set('timeout', min(timeout_ms, 5000))
                 try:
@@ -396,3 +399,19 @@ def quick_sat(fs, timeout_ms=2000) -> str:
 
 
 discharge_with_extract = discharge
+
+
+def memo1(f):
+    """memoise a closure  z3 index term -> value  (closures over rows are re-evaluated at the same terms many times)"""
+    cache = {}
+
+    def g(i):
+        i = lift(i)
+        k = i.get_id()
+        hit = cache.get(k)
+        if hit is not None and hit[0].eq(i):
+            return hit[1]
+        v = f(i)
+        cache[k] = (i, v)        # the term is kept alive, so its id cannot be recycled while cached
+        return v
+    return g
